@@ -27,8 +27,8 @@ func init() {
 			// guard: the app height parameter equals 0 on every path
 			appH := ""
 			for _, p := range outermost(s.Fn).Params {
-				if strings.Contains(strings.ToLower(p.Name()), "appblockheight") || strings.Contains(strings.ToLower(p.Name()), "appheight") {
-					appH = p.Name()
+				if n := canonParamName(p); strings.Contains(strings.ToLower(n), "appblockheight") || strings.Contains(strings.ToLower(n), "appheight") {
+					appH = n
 				}
 			}
 			if !c.Check(appH != "", key+" app height parameter", w.ipos(s.Instr), "app height parameter "+appH, "cannot identify the application-height parameter of "+funcKey(s.Fn)) {
